@@ -281,6 +281,14 @@ class Interp:
             return self.memo[mkey]
         self.counters["calls_inlined"] += 1
         self.visited_functions.add(key)
+        # an ESCAPED string handed to a model accessor as a key (language code, style class): the model
+        # is keyed by the raw value, the escaped one finds nothing
+        if fn.cls is not None and fn.cls.name in ("CaptionSet", "CaptionList", "Caption") and fn.name.startswith(("get_", "set_")):
+            for a_ in list(args)[:1]:
+                esc = [p_ for p_ in getattr(a_, "pieces", ()) if p_.kind == "data" and p_.escapes]
+                if esc:
+                    self.emit("escaped-key", f"{fn.cls.name}.{fn.name}", a_, node,
+                              {"escapes": sorted({e for p_ in esc for e in p_.escapes})})
         fr = Frame(fn, fn.module, fn.cls)
         fr.selfv = selfv
         env = {}
@@ -889,6 +897,11 @@ class Interp:
             m = l.cls.find_method(name) if name else None
             if m is not None:
                 return self.call_function(m, [r], {}, st, selfv=l, node=node)
+        if isinstance(op, (ast.Sub, ast.BitOr, ast.BitAnd, ast.BitXor)) and ("set" in l.kinds or "set" in r.kinds) \
+                and not ("dict" in l.kinds):
+            # set algebra keeps hash order
+            return AV(kinds=["set"], regions=["F"], elem=join(l.elem, r.elem) if l.elem is not None and r.elem is not None
+                      else (l.elem or r.elem), setlike=True)
         if isinstance(op, ast.BitOr) and "dict" in l.kinds:
             return join(l, r).copy(regions=["F"])
         if l.is_top() or r.is_top():
